@@ -18,6 +18,7 @@ RULE = ("a shared pool of library objects and plain arguments; every operation o
         "ORDERED PAIR (op1; op2): state unchanged, and op2's result equals op2's result on a freshly built pool (differential oracle from a "
         "non-initial history); op;op gives equal results. Thorough adds all triples over a core menu. non-trivial = the operation returns a non-empty result")
 RULE += ' Also: operators on a one-qubit register (sparse matrix, expectation).'
+RULE += ' Round 5: an unsimplified exact custom definition under a fractional power, integer shot arrays in the vectorised parity routines, an empty circuit with float / complex initial states whose norm is off by 1e-9.'
 ASSUMPTIONS = ["observability = the public surface captured by mc/snapshot.py (operations, params, coefficients, bitstrings, distribution_dict items in order, amplitudes, dict/list arguments)",
                "RNG-using operations run under the scripted RNG with default answers, so results are comparable"]
 BOUNDS = {"quick": {"depth": 2, "menu": "full"}, "thorough": {"depth": 3, "menu": "full at depth 2, core at depth 3"}}
